@@ -6,14 +6,14 @@ from .common import last
 ID = "C18"
 BUDGET = {"quick": 2000, "thorough": 100000}
 RULE = ("multi-line template sets (multi-byte characters, CRLF, tabs) with EXACTLY ONE failing tag planted at a random "
-        "nesting position (inside if / each / with bodies, else branches, else-chain links, blocks of user helpers, registered "
-        "partials called from elsewhere) in a random template of the set; failure kinds: missing variable (strict), unknown "
+        "nesting position (inside if / each / with bodies, else branches, else-chain links, blocks of user helpers, inline partial bodies, "
+        "partial-block and fallback bodies, registered partials called from elsewhere) in a random template of the set; failure kinds: missing variable (strict), unknown "
         "helper, unknown partial, unknown decorator, helper argument error (lookup without arguments, each without argument, "
         "invalid logging level); the generator records the template name and the 1-based line/column of the tag's '{{' "
         "(for a failing else-chain link: the chain's opening tag) – that record is the oracle; plus compile errors (name and "
         "position inside the source); non-trivial = every case; distinct by (kind, position)")
 DEFINITE_FLOOR = 0.95
-ASSUMPTIONS = ["a failing tag inside an inline partial or a partial-block body is excluded from the random stream (known finding F9) and runs as a listed witness"]
+ASSUMPTIONS = []
 FAILS = [("{{nope}}", "MissingVariable", True), ("{{nohelper 1}}", "HelperNotFound", False), ("{{> nopartial}}", "PartialNotFound", False),
          ("{{*nodeco}}", "DecoratorNotFound", False), ("{{lookup}}", "ParamNotFoundForIndex", False), ("{{#each}}x{{/each}}", "ParamNotFoundForIndex", False),
          ("{{log 1 level=\"loud\"}}", "InvalidLoggingLevel", False), ("{{#nohelper 1}}x{{/nohelper}}", "HelperNotFound", False),
@@ -57,7 +57,7 @@ def wrap(rng, inner, depth):
     """nest `inner` (containing MARK at the failing tag) inside blocks; returns text with MARK placed where the
     REPORTED position must be (the tag itself, or the chain's opening tag for a failing chain link)"""
     for _ in range(depth):
-        k = rng.pick(["if", "ifelse", "each", "with", "chain", "user", "unless"])
+        k = rng.pick(["if", "ifelse", "each", "with", "chain", "user", "unless", "inline", "pblock", "fallback"])
         a, b = filler(rng, rng.range(0, 3)), filler(rng, rng.range(0, 3))
         if k == "if":
             inner = "{{#if @root.t}}" + a + inner + b + "{{/if}}"
@@ -71,6 +71,17 @@ def wrap(rng, inner, depth):
             inner = "{{#with @root.o}}" + a + inner.replace("{{nope}}", "{{nope}}") + b + "{{/with}}"
         elif k == "user":
             inner = "{{#blk 1}}" + a + inner + b + "{{/blk}}"
+        elif k == "inline":
+            # the failing tag sits in an inline partial's body: it runs when the partial is called, and is reported where
+            # it is WRITTEN (this template, the tag's own position)
+            nm = "ix%d" % rng.range(0, 999)
+            inner = "{{#*inline \"" + nm + "\"}}" + a + inner + b + "{{/inline}}" + filler(rng, rng.range(0, 2)) + "{{> " + nm + "}}"
+        elif k == "pblock":
+            # … in a partial-block body rendered from inside another registered partial
+            inner = "{{#> wrapp}}" + a + inner + b + "{{/wrapp}}"
+        elif k == "fallback":
+            # … in the fallback body of a block call of a partial that does not exist
+            inner = "{{#> nosuchpartial}}" + a + inner + b + "{{/nosuchpartial}}"
         else:
             # the body of a chain link: errors raised inside it already carry their own position
             inner = "{{#if @root.f}}no{{else if @root.t}}" + a + inner + b + "{{/if}}"
@@ -104,7 +115,7 @@ def gen_case(rng, i):
         tname = "p2"
     cfg = {"strict": strict, "escape": "none", "helpers": [{"name": "blk", "kind": "mark", "tag": "B"}],
            "decorators": [{"name": "sethelper", "kind": "sethelper"}]}
-    case = session(cfg, [("okp", "P")] + [(n, tmpls[n]) for n in ("p2", "p1", "main")], {"api": "render", "name": "main"}, DATA)
+    case = session(cfg, [("okp", "P"), ("wrapp", "<\n  {{> @partial-block}}>")] + [(n, tmpls[n]) for n in ("p2", "p1", "main")], {"api": "render", "name": "main"}, DATA)
     return case, {"name": tname, "line": line, "col": col, "reason": reason, "tag": tag, "where": where, "chain": chain_link}
 
 
